@@ -32,6 +32,14 @@ def pool(tier):
          MultiValuedValue([TV(int), K(1)]), MultiValuedValue([K(1), TV(int)]), MultiValuedValue([K(None), TV(str), TV(int)]),
          SequenceValue(tuple, [(False, TypeVarValue(Tv)), (False, TypeVarValue(Uv, bound=TV(int)))]), K(b"a"), K(0), K(False), K(()),
          MultiValuedValue([MultiValuedValue([TV(int), TV(str)]), K(None)]), GenericValue(dict, [TypeVarValue(Tv), TypeVarValue(Tv)])]
+    # every shape also in a structurally equal form built in another order, and with each non-default constructor flag
+    p += [TypedDictValue({"a": TypedDictEntry(TV(int)), "b": TypedDictEntry(TV(str))}), TypedDictValue({"b": TypedDictEntry(TV(str)), "a": TypedDictEntry(TV(int))}),
+          TypedDictValue({"a": TypedDictEntry(TV(int), required=False)}), TypedDictValue({"a": TypedDictEntry(TV(int), readonly=True)}),
+          TypedDictValue({"a": TypedDictEntry(TV(int))}, extra_keys=TV(str)), TypedDictValue({"a": TypedDictEntry(TypeVarValue(Tv))}),
+          SubclassValue(TV(int), exactly=True), SubclassValue(TypeVarValue(Tv), exactly=True), GenericValue(list, [SubclassValue(TV(int), exactly=True)]),
+          DictIncompleteValue(dict, [KVPair(K("a"), TV(int), is_required=False)]), DictIncompleteValue(dict, [KVPair(TV(str), TypeVarValue(Tv), is_many=True)]),
+          AnnotatedValue(TV(int), [K("m1"), K("m2")]), AnnotatedValue(TV(int), [K("m2"), K("m1")]), AnnotatedValue(TypeVarValue(Tv), [K("meta")]),
+          SequenceValue(list, [(False, TypeVarValue(Tv)), (True, TV(int))])]
     if tier == "thorough":
         p += [K(2), K("b"), K([1]), K({"a": 1}), K(1j), K(frozenset()), TV(bytes), TV(complex), TV(list), TV(tuple), TV(dict), TV(type(None)),
               GenericValue(set, [TV(int)]), GenericValue(frozenset, [TV(str)]), GenericValue(tuple, [TV(int)]), GenericValue(list, [K(1)]),
